@@ -45,6 +45,15 @@ func c11Packet(c *sim.Ctx) (mq.Packet, *ref.AP, string) {
 			a = a2
 		}
 	}
+	if t.Bool(1, 8) {
+		// a zero-value literal filled in through the setters (no constructor):
+		// whatever it encodes to, read-only operations must leave it alone and
+		// encode it the same way every time
+		if p, _, err := buildGuardZero(a, t); err == nil {
+			return p, a, "zero-literal"
+		}
+		return nil, a, "zero-literal"
+	}
 	p, _, err := buildGuard(a, t)
 	if err != nil {
 		return nil, a, how
